@@ -287,6 +287,101 @@ theorem C25_include_is_textual_partial {κ : Type} (resolve : κ → List UInt8 
   · exact C25_parse_append content p'.st.inp _ hchild hterm
       (fun y hy => by obtain ⟨l, r, h⟩ := hrec y hy; exact ⟨_, h⟩)
 
+/-- **The parser does not depend on where its line counter starts**: reading from line `l + k`
+    yields what reading from line `l` yields, with every line number — of records, include
+    requests and errors — increased by `k` -/
+theorem C25_line_shift (p : Parser) (k : Nat) :
+    collect { p with st := ⟨p.st.inp, p.st.line + k, p.st.paren⟩ } = (collect p).map (shiftY k) :=
+  collect_shift p k
+
+/-- … and after a text has been read without leaving a line unfinished, the reader is outside
+    parentheses -/
+theorem C25_ends_outside_parens (p : Parser) (hp : p.st.paren = false) : p.finish.st.paren = false :=
+  finish_paren p hp
+
+/-- the records a tree reading reports, without file and line -/
+def recsOfSY {κ : Type} (ys : List (SY κ)) : List Rec :=
+  ys.filterMap fun y => match y with
+    | .record _ _ r => some r
+    | _ => none
+
+theorem recsOfSY_append {κ : Type} (a b : List (SY κ)) : recsOfSY (a ++ b) = recsOfSY a ++ recsOfSY b := by
+  simp [recsOfSY]
+
+theorem recsOfY_append (a b : List Yield) : recsOfY (a ++ b) = recsOfY a ++ recsOfY b := by
+  simp [recsOfY]
+
+theorem recsOfSY_tagged {κ : Type} (file : κ) (ys : List Yield) :
+    recsOfSY (ys.filterMap (fun y => match y with
+        | .item (.record l r) => some (SY.record file l r)
+        | _ => none)) = recsOfY ys := by
+  induction ys with
+  | nil => rfl
+  | cons y ys ih =>
+    simp only [recsOfSY, recsOfY, List.filterMap_cons] at ih ⊢
+    cases y with
+    | item i => cases i <;> simp [ih]
+    | err e => simp [ih]
+    | panic => simp [ih]
+
+/-- **The flattened-file equation** for one `$INCLUDE`: if the included file consists of records,
+    is well terminated and error-free, ends with the origin the includer has (so that restoring
+    the includer's origin changes nothing), and the rest of the includer consists of records,
+    then reading the tree from the `$INCLUDE` on yields the same records as reading the single
+    text in which the `$INCLUDE` line is replaced by the included file's contents.  `_partial`:
+    one include, and no `$ORIGIN` lines to emulate the origin scoping when the included file
+    leaves another origin behind. -/
+theorem C25_flatten_one_partial {κ : Type} (resolve : κ → List UInt8 → Option (κ × List UInt8))
+    (D : Nat) (file child : κ) (depth : Nat) (p p' : Parser) (line : Nat) (path content : List UInt8)
+    (origin : Option (List UInt8)) (hctx : CtxWF p.ctx) (hp : p.st.paren = false)
+    (hn : p.next = (some (.item (.incl line path origin)), p')) (hd : depth < D)
+    (hres : resolve file path = some (child, content)) (hterm : content = [] ∨ Term content)
+    (hrec : ∀ y ∈ parseAll content (childContext p'.ctx origin), ∃ l r, y = .item (.record l r))
+    (hO : (Parser.withContext content (childContext p'.ctx origin)).finish.ctx.origin = p'.ctx.origin)
+    (hrest : ∀ y ∈ collect ⟨false, p'.st, (Parser.withContext content (childContext p'.ctx origin)).finish.ctx⟩,
+      ∃ l r, y = .item (.record l r)) :
+    recsOfSY (readFile resolve D file depth p).1 =
+      recsOfY (parseAll (content ++ p'.st.inp) (childContext p'.ctx origin)) := by
+  obtain ⟨h1, h2⟩ := C25_include_is_textual_partial resolve D file child depth p p' line path content origin hctx hn hd
+    hres hterm hrec
+  simp only at h1 h2
+  generalize hinc : (Parser.withContext content (childContext p'.ctx origin)).finish = fin at h1 h2 hO hrest
+  have g := next_spec (p := p) hctx
+  rw [hn] at g
+  obtain ⟨hitem, hctx', hlt⟩ := g
+  have hchild : CtxWF (childContext p'.ctx origin) := by
+    unfold childContext
+    cases origin with
+    | none => exact hctx'
+    | some o =>
+      simp only [ItemOK] at hitem
+      exact ⟨by intro o' ho'; simp at ho'; subst ho'; exact hitem o rfl, hctx'.2⟩
+  -- the context after the included file: restoring the origin changes nothing
+  have hrestore : ({ fin.ctx with origin := p'.ctx.origin } : Ctx) = fin.ctx := by
+    cases hc : fin.ctx with
+    | mk o a b c d => rw [hc] at hO; simp at hO; simp [hO]
+  have hfinctx : CtxWF fin.ctx := by rw [← hinc]; exact finish_ctxWF _ hchild
+  obtain ⟨_, hp'err⟩ := next_item_error p p' _ hn
+  have hp'paren : p'.st.paren = false := next_paren p p' _ hn hp
+  have hfinparen : fin.st.paren = false := by rw [← hinc]; exact finish_paren _ rfl
+  rw [hrestore] at h1
+  -- the tree reading
+  have hR := C25_file_of_records resolve D file depth p'.st.inp.length { p' with ctx := fin.ctx } (Nat.le_refl _)
+    hp'err hfinctx (by
+      have : ({ p' with ctx := fin.ctx } : Parser) = ⟨false, p'.st, fin.ctx⟩ := by
+        cases p'; simp at hp'err ⊢; exact hp'err
+      rw [this]; exact hrest)
+  rw [h1, hR]
+  simp only [recsOfSY_append, recsOfSY_tagged]
+  -- the flat reading
+  rw [h2, recsOfY_append]
+  congr 1
+  have e1 : ({ p' with ctx := fin.ctx } : Parser) = ⟨false, ⟨p'.st.inp, p'.st.line, false⟩, fin.ctx⟩ := by
+    cases p' with
+    | mk e st c => cases st; simp at hp'err hp'paren ⊢; exact ⟨hp'err, hp'paren⟩
+  rw [e1, hfinparen]
+  exact recsOfY_line _ _ _ _ _
+
 /-!
   ### What is not proved (gap)
 
@@ -415,5 +510,50 @@ example :
     rw [h2]
     decide +kernel
 
+
+/-! ### non-vacuity: line counter, parentheses, the flattened file -/
+
+example : collect ⟨false, ⟨exA, 1 + 41, false⟩, {}⟩ =
+    [.item (.record 43 ⟨[1, 97, 1, 116, 0], 5, 1, 2, [1, 98, 1, 116, 0]⟩)] := by
+  have h := C25_line_shift ⟨false, ⟨exA, 1, false⟩, {}⟩ 41
+  simp only at h
+  rw [h, show collect ⟨false, ⟨exA, 1, false⟩, {}⟩ = parseAll exA {} from rfl, exA_parse]
+  rfl
+
+example : (Parser.withContext "a NS ( b\n ) ; c\n".toUTF8.toList { origin := some [0], prevTtl := some 1, prevClass := some 1 }).finish.st =
+    ⟨[], 3, false⟩ ∧
+    (Parser.withContext exA {}).finish.st.paren = false :=
+  ⟨by decide +kernel, C25_ends_outside_parens _ rfl⟩
+
+private def exP2 : Parser :=
+  ⟨false, ⟨"$INCLUDE i.zone\n".toUTF8.toList ++ exMainRest, 2, false⟩, { origin := some [1, 116, 0] }⟩
+private def exP2' : Parser := ⟨false, ⟨exMainRest, 3, false⟩, { origin := some [1, 116, 0] }⟩
+
+/-- `C25_flatten_one_partial` applies: `$INCLUDE i.zone` (no origin given; the included file
+    keeps the origin `t.`) — tree reading and reading of the flattened text give the same two
+    records -/
+example :
+    recsOfSY (readFile (fun (_ : String) (_ : List UInt8) => some ("i.zone", exInc)) 1 "main.zone" 0 exP2).1 =
+      [⟨[1, 116, 0], 7, 1, 1, [9, 9, 9, 9]⟩, ⟨[1, 97, 1, 116, 0], 7, 1, 1, [1, 2, 3, 4]⟩] ∧
+    recsOfY (parseAll (exInc ++ exMainRest) { origin := some [1, 116, 0] }) =
+      [⟨[1, 116, 0], 7, 1, 1, [9, 9, 9, 9]⟩, ⟨[1, 97, 1, 116, 0], 7, 1, 1, [1, 2, 3, 4]⟩] := by
+  have hn : exP2.next = (some (.item (.incl 2 "i.zone".toUTF8.toList (some [1, 116, 0]))), exP2') := by
+    decide +kernel
+  have hparse : parseAll exInc (childContext exP2'.ctx (some [1, 116, 0])) =
+      [.item (.record 1 ⟨[1, 116, 0], 7, 1, 1, [9, 9, 9, 9]⟩)] := by decide +kernel
+  have h := C25_flatten_one_partial (fun (_ : String) (_ : List UInt8) => some ("i.zone", exInc)) 1
+    "main.zone" "i.zone" 0 exP2 exP2' 2 "i.zone".toUTF8.toList exInc (some [1, 116, 0])
+    ⟨by intro o ho; cases ho; exact ⟨[[116]], by simp [LabelsOK], by decide, by decide⟩, by intro o ho; cases ho⟩
+    rfl hn (by decide) rfl
+    (.inr ⟨"@ 7 IN A 9.9.9.9".toUTF8.toList, by decide +kernel, by decide +kernel⟩)
+    (by rw [hparse]; intro y hy; simp at hy; subst hy; exact ⟨_, _, rfl⟩)
+    (by decide +kernel)
+    (by
+      rw [show collect ⟨false, exP2'.st, (Parser.withContext exInc (childContext exP2'.ctx (some [1, 116, 0]))).finish.ctx⟩ =
+        [.item (.record 3 ⟨[1, 97, 1, 116, 0], 7, 1, 1, [1, 2, 3, 4]⟩)] from by decide +kernel]
+      intro y hy; simp at hy; subst hy; exact ⟨_, _, rfl⟩)
+  have hflat : recsOfY (parseAll (exInc ++ exMainRest) { origin := some [1, 116, 0] }) =
+      [⟨[1, 116, 0], 7, 1, 1, [9, 9, 9, 9]⟩, ⟨[1, 97, 1, 116, 0], 7, 1, 1, [1, 2, 3, 4]⟩] := by decide +kernel
+  exact ⟨h.trans hflat, hflat⟩
 
 end QV.C25
